@@ -32,6 +32,7 @@ class TSock:
         self.log = []
         self.closed_at = None
         self.use_after_close = 0
+        self.was_reset = False  # the peer's RST has been seen: the kernel socket is in state CLOSE (shutdown() -> ENOTCONN, send() -> EPIPE)
         self.send_delay = 0.0  # seconds of virtual time every send() call blocks before bytes are taken (slow peer)
         self.send_accept = None  # None: everything | "one": one byte per call | "half": half of what is offered (at least 1)
 
@@ -155,6 +156,7 @@ class TSock:
                     return b""
                 if h[1] == "rst":
                     self.log.append((s.now, "rst"))
+                    self.was_reset = True
                     raise ConnectionResetError(_errno.ECONNRESET, "Connection reset by peer")
             if self.shut:
                 return b""
@@ -192,10 +194,20 @@ class TSock:
     def sendall(self, data):
         self.send(data)
 
+    def _reset_by_peer(self):
+        if self.was_reset:
+            return True
+        h = self._head()
+        return h is not None and h[1] == "rst"
+
     def shutdown(self, how=None):
         s = S.cur()
         s.point("shutdown")
         self._touch("shutdown")
+        if self._reset_by_peer():
+            # as the kernel does for a TCP socket that was reset by its peer
+            self.log.append((s.now, "shutdown-ENOTCONN"))
+            raise OSError(_errno.ENOTCONN, "Transport endpoint is not connected")
         self.shut = True
         self.log.append((s.now, "shutdown"))
         if self.peer is not None:
